@@ -1,6 +1,7 @@
 """C13 — simulated LOAD results do not depend on speed-up options or simulator choice.
 
-Theorems: lean/SkoolVerif/Props/C13.lean.  Ties: translator for the Z80 closures (validated per slot by
+Theorems: lean/SkoolVerif/Props/C13.lean.  The DEC A hook and the tape-sampling fast-forward of BOTH languages are translated from
+loadtracer.py / c/csimulator.c on every run (harness/loadrun.py) and proved equal to the hand models.  Ties: translator for the Z80 closures (validated per slot by
 C05/C06/C08) and for the ACCELERATORS table (translate/gen_c13.py, dumped on every run); hand models
 Model/LoadAccel.lean, Model/LoadTape.lean, Model/AccelWalk.lean tied by correspondence here:
 one iteration of the real load loop (Python LoadTracer.run and C CSimulator.load) vs the model on
@@ -9,6 +10,7 @@ real simulators execute them.  E2E: tap2sna.main over the speed-up matrix on gen
 import os
 import sys
 
+import loadrun
 import simgen
 from framework import fresh_import, VERIF, REPO, LeanLock
 
@@ -46,7 +48,16 @@ def run(chk):
     chk.trusted += ['translator translate/py2lean.py for the Z80 closures (validated per slot by C05/C06/C08 runs)',
                     'translate/gen_c13.py: ACCELERATORS dumped as data on every run (compared entry by entry with the imported table)',
                     'hand models Model/LoadAccel.lean, Model/LoadTape.lean, Model/AccelWalk.lean tied by correspondence (one load-loop iteration, Python and C)',
-                    'C read_port/advance_tape/dec_a/CSimulator_load: differential execution only']
+                    'DERIVED FROM SOURCE (translated on every run, proved equal to the hand models, run against the real functions): the DEC A hook of '
+                    'both languages (translate/pyload2lean.py: LoadTracer.dec_a(...).func + loadtracer DEC/DEC0/INC0 -> Gen/PyLoad.lean; '
+                    'translate/cload2lean.py: dec_a of c/csimulator.c -> Gen/CLoad/dec_a.lean; python_dec_a_derived_from_source, '
+                    'c_dec_a_derived_from_source, c_dec_a_eq_python) and the tape-sampling fast-forward of the port handler of both languages '
+                    '(the matched-accelerator block of _read_port.func / read_port; python_read_port_derived_from_source, '
+                    'c_read_port_derived_from_source, read_port_ffwd_c_eq_python); the code around the fast-forward (accelerator search, '
+                    'signature comparison, move-to-front, announce/stop-tape branches, AY port) is pinned by exact text in the translators and '
+                    'modelled by hand (LoadTape.readPort, sigMatchPy/sigMatchC)',
+                    'C advance_tape and the shells of CSimulator_load / LoadTracer.run (interrupt test, stop conditions, fast_load hand-over): hand '
+                    'models LoadTape.tapeAdvance/frameAdvance/stopCond tied by correspondence (one loop iteration, Python and C) and differentially']
     chk.assumptions += [
         'the ROM/BASIC code executed between blocks and the loaders themselves are executed, not reasoned about: that complete loads end in '
         'identical snapshots is exploration (e2e matrix); what is proved is that each speed-up step equals the steps it replaces',
@@ -68,8 +79,10 @@ def run(chk):
     loadtracer, loadsample, tape = fresh_import('skoolkit.loadtracer', 'skoolkit.loadsample', 'skoolkit.tape')
     gen_ok = simgen.regen(chk)
     gen_ok = regen_accelerators(chk) and gen_ok
+    # the LOAD functions themselves, translated from loadtracer.py and c/csimulator.c (harness/loadrun.py)
+    gen_ok = (loadrun.regen_load(chk) if gen_ok else False) and gen_ok
     ok = chk.lake_build([PROPS, 'SkoolVerif.Prelude.SimProto', 'SkoolVerif.Gen.SimHandlers', 'SkoolVerif.Gen.Accelerators',
-                         'SkoolVerif.Model.AccelWalk']) if gen_ok else False
+                         'SkoolVerif.Model.AccelWalk'] + loadrun.LOAD_DRIVER_MODULES) if gen_ok else False
     chk.audit(PROPS)
     if chk.thorough and ok:
         chk.leanchecker([PROPS])
@@ -80,7 +93,11 @@ def run(chk):
     c13_corr.walks(chk, loadsample, classes, use_driver=ok)     # the dynamic part is an oracle on the real table + simulators
     if ok:
         c13_corr.lsteps(chk, loadtracer, loadsample, tape, classes)
+        # the translations (Gen/PyLoad.lean, Gen/CLoad/*.lean) against the real functions they were derived from
+        loadrun.tables_correspondence(chk, loadtracer)
+        loadrun.deca_correspondence(chk, loadtracer, loadsample, tape, classes)
     c13_corr.int_lsteps(chk, loadtracer, loadsample, tape, classes)
+    loadrun.timeout_boundary(chk, loadtracer, tape, classes)
     c13_e2e.run(chk, classes)
     chk.exhaustive = False
 
